@@ -305,11 +305,20 @@ pub fn run(ctx: &Ctx) -> Report {
 
 /// sources of the template workloads (also type-checked by C01): even = name styles, odd = cross-module cycles
 pub fn template_sources(seed: u64, i: u64) -> Vec<String> {
-    if i % 2 == 0 {
-        let (a, b, _, _, _) = name_style_case(seed, i / 2);
-        vec![a, b]
-    } else {
-        cycle_case(seed, i / 2).0
+    match i % 3 {
+        0 => {
+            let (a, b, _, _, _) = name_style_case(seed, i / 3);
+            vec![a, b]
+        }
+        1 => cycle_case(seed, i / 3).0,
+        _ => {
+            // an information object set used in a table constraint (other generator paths when open types are not opaque);
+            // the type field's name carries a hyphen in half of the cases
+            let f = if (i / 3) % 2 == 0 { "Type-Field" } else { "TypeField" };
+            vec![format!(
+                "Mo DEFINITIONS AUTOMATIC TAGS ::= BEGIN\nCLSX ::= CLASS {{ &id INTEGER UNIQUE, &{f} }} WITH SYNTAX {{ ID &id TYPE &{f} }}\noa CLSX ::= {{ ID 1 TYPE INTEGER }}\nob CLSX ::= {{ ID 2 TYPE BOOLEAN }}\nSetX CLSX ::= {{ oa | ob }}\nUq1 ::= SEQUENCE {{ id CLSX.&id ({{SetX}}), val CLSX.&{f} ({{SetX}}{{@id}}) }}\nEND\n"
+            )]
+        }
     }
 }
 
@@ -327,11 +336,13 @@ fn cycle_case(seed: u64, i: u64) -> (Vec<String>, Vec<(String, String, String, S
         let next = (k + 1) % n;
         let qualified = rng.chance(2, 3);
         let r = if qualified { format!("{}.{}", mods[next], names[next]) } else { names[next].to_string() };
+        // every component / alternative carries its own context tag: an untagged CHOICE reached through another untagged
+        // CHOICE would make the alternatives' tags collide (illegal ASN.1), and a cycle of untagged CHOICEs has no tag at all
         let body = match rng.below(4) {
-            0 => format!("SEQUENCE {{ next {r} OPTIONAL, weight INTEGER }}"),
-            1 => format!("CHOICE {{ node {r}, leaf NULL }}"),
-            2 => format!("SET {{ next {r} OPTIONAL, flag BOOLEAN }}"),
-            _ => format!("SEQUENCE {{ children SEQUENCE OF {r}, label UTF8String }}"),
+            0 => format!("SEQUENCE {{ next [0] {r} OPTIONAL, weight [1] INTEGER }}"),
+            1 => format!("CHOICE {{ node [0] {r}, leaf [1] NULL }}"),
+            2 => format!("SET {{ next [0] {r} OPTIONAL, flag [1] BOOLEAN }}"),
+            _ => format!("SEQUENCE {{ children [0] SEQUENCE OF {r}, label [1] UTF8String }}"),
         };
         let tagging = *rng.pick(&["AUTOMATIC TAGS", "IMPLICIT TAGS", "EXPLICIT TAGS"]);
         // in a module without automatic tagging the two components need distinct tags: they have (context vs universal)
